@@ -370,9 +370,19 @@ func c20SubscriberStack(r *Run) {
 	var got []*message.Message
 	acks, nacks := uint64(0), uint64(0)
 	seen := map[string]int{}
+	// shutdown with a message in flight: the subscription context is cancelled after the k-th message was received
+	// and before it is settled; that message still has to be counted
+	cancelAt := -1
+	if t.Chance(1, 3) {
+		cancelAt = t.Int(n + 1)
+	}
 	go func() {
 		for m := range ch {
 			got = append(got, m)
+			if len(got)-1 == cancelAt {
+				r.Fault("subscription-cancel-before-settlement")
+				cancel()
+			}
 			seen[m.UUID]++
 			if seen[m.UUID] <= nackPlan[m.UUID] {
 				nacks++
@@ -391,11 +401,17 @@ func c20SubscriberStack(r *Run) {
 	if inner.Closes != 1 {
 		r.Fail("C20.R2", "Close did not pass through the subscriber decorators exactly once", "inner Close calls: %d", inner.Closes)
 	}
-	if len(got) != len(inner.Deliveries) {
+	if len(got) > len(inner.Deliveries) || (len(got) != len(inner.Deliveries) && cancelAt < 0) {
 		r.Fail("C20.R1", "the decorated subscriber did not pass every message exactly once", "received %d, inner emitted %d", len(got), len(inner.Deliveries))
 		return
 	}
-	for i, d := range inner.Deliveries {
+	// after the subscription context was cancelled a message on its way may be dropped: it then stays unsettled
+	for _, d := range inner.Deliveries[len(got):] {
+		if d.Acked() {
+			r.Fail("C20.R1", "a message that never reached the consumer was acked", "%s", d.Msg.UUID)
+		}
+	}
+	for i, d := range inner.Deliveries[:len(got)] {
 		if got[i] != d.Msg {
 			r.Fail("C20.R1", "messages were reordered or replaced on their way through the subscriber decorators", "position %d: %s vs %s", i, got[i].UUID, d.Msg.UUID)
 			continue
